@@ -9,11 +9,14 @@ import (
 
 	"github.com/tochemey/goakt/v4/internal/internalpb"
 	inet "github.com/tochemey/goakt/v4/internal/net"
+	"github.com/tochemey/goakt/v4/internal/xsync"
 )
 
 func init() {
 	vRegister("vC27_order", vC27_order)
 	vRegister("vC27_close", vC27_close)
+	vRegister("vC27_fullQueue", vC27_fullQueue)
+	vRegister("vC27_oneCoalescer", vC27_oneCoalescer)
 }
 
 var vC27_delivered [4]*internalpb.RemoteMessage
@@ -128,6 +131,62 @@ func vC27_close() {
 		if e2 == nil {
 			vAssert(d2+x2 >= 1, "an accepted message is delivered or dead-lettered when the client closes (second)")
 		}
+	}
+	vCover("end")
+}
+
+// queue capacity 1: the second submit takes the blocking path while the client is being closed
+func vC27_fullQueue() {
+	c := vC27_new(1)
+	c.in = make(chan *internalpb.RemoteMessage, 1)
+	vC27_fail = false
+	m1, m2 := &internalpb.RemoteMessage{}, &internalpb.RemoteMessage{}
+	var e1, e2 error
+	vGo("caller", func() {
+		e1 = c.submit(context.Background(), m1)
+		e2 = c.submit(context.Background(), m2)
+	})
+	vGo("closer", func() { c.close() })
+	vGo("writer", func() { c.run() })
+	vRun()
+	if vStuck() && vThreadDone(0) {
+		vCover("stuck")
+		d1, _ := vC27_count(vC27_delivered, vC27_nDelivered, m1)
+		d2, _ := vC27_count(vC27_delivered, vC27_nDelivered, m2)
+		x1, _ := vC27_count(vC27_deadLettered, vC27_nDead, m1)
+		x2, _ := vC27_count(vC27_deadLettered, vC27_nDead, m2)
+		if e1 == nil {
+			vAssert(d1+x1 >= 1, "an accepted message is delivered or dead-lettered (full queue, first)")
+		}
+		if e2 == nil {
+			vAssert(d2+x2 >= 1, "an accepted message is delivered or dead-lettered (full queue, blocking submit)")
+			vCover("second-accepted")
+		}
+	}
+	vCover("end")
+}
+
+// substituted for newCoalescer (it would start the writer goroutine) and (*client).NetClient
+var vC27_nCreated int
+
+func vC27_newCoalescer(dest string, nc *inet.Client, cfg coalescingConfig) *coalescer {
+	vC27_nCreated++
+	return &coalescer{dest: dest, maxBatch: 1}
+}
+func vC27_netClient(r *client, host string, port int) *inet.Client { return nil }
+
+// two first sends to a destination that has no coalescer yet: both must use the same coalescer (else order is lost)
+func vC27_oneCoalescer() {
+	r := &client{coalescing: coalescingConfig{maxBatch: 1}, coalescers: xsync.NewMap[string, *coalescer]()}
+	vC27_nCreated = 0
+	var c1, c2 *coalescer
+	vGo("s1", func() { c1 = r.getCoalescer("h", 1) })
+	vGo("s2", func() { c2 = r.getCoalescer("h", 1) })
+	vRun()
+	if vAllDone() {
+		vCover("all-done")
+		vAssert(c1 != nil && c1 == c2, "all senders to one destination share one coalescer (one ordered queue)")
+		vAssert(vC27_nCreated == 1, "exactly one coalescer (and writer) is created per destination")
 	}
 	vCover("end")
 }
